@@ -94,6 +94,17 @@ theorem eval_strict_raw (te : C.TyEnv) (s : Store) (e : Expr) :
     obtain ⟨y, hy, h⟩ := bind_ok h
     rw [iha x hx, ok_bind, ihb y hy, ok_bind]; exact h
 
+theorem declTemps_strict_raw : ∀ (ts : List Ty) (es : List Expr) (k : Nat) (te : C.TyEnv) (s s' : Store),
+    C.declTemps te .strict k ts es s = .ok s' → C.declTemps te .raw k ts es s = .ok s'
+  | [], [], _, _, _, _, h => by simpa only [C.declTemps] using h
+  | [], _ :: _, _, _, _, _, h => by simp only [C.declTemps] at h; cases h
+  | _ :: _, [], _, _, _, _, h => by simp only [C.declTemps] at h; cases h
+  | t :: ts, e :: es, k, te, s, s', h => by
+    rw [C.declTemps] at h ⊢
+    obtain ⟨v, hv, h⟩ := bind_ok h
+    rw [eval_strict_raw te _ e v hv, ok_bind]
+    exact declTemps_strict_raw ts es (k + 1) _ _ _ h
+
 theorem exec_strict_raw (f : Nat) :
     (∀ te s st st', C.exec te f s st = .ok st' → C.exec te f s st .raw = .ok st') ∧
     (∀ te i n b st st', C.exec.forLoop te f i n b st = .ok st' → C.exec.forLoop te f i n b st .raw = .ok st') := by
@@ -126,6 +137,20 @@ theorem exec_strict_raw (f : Nat) :
         obtain ⟨r, hr, h⟩ := bind_ok h
         rw [eval_strict_raw te _ _ cur hcur, ok_bind, eval_strict_raw te _ e v hv, ok_bind, binop_strict_raw hr, ok_bind]
         exact h
+      | tuple k xs es => rw [C.exec] at h; cases h
+      | ctuple k ts xs es =>
+        rw [C.exec] at h ⊢
+        split at h
+        · cases h
+        · rename_i hg
+          rw [if_neg hg]
+          split at h
+          · cases h
+          · rename_i hl
+            rw [if_neg hl]
+            obtain ⟨s1, h1, h⟩ := bind_ok h
+            rw [declTemps_strict_raw _ _ _ _ _ _ h1, ok_bind]
+            exact h
       | ifs c a b =>
         rw [C.exec] at h ⊢
         obtain ⟨v, hv, h⟩ := bind_ok h
